@@ -1,5 +1,6 @@
 import os
 from abc import ABCMeta
+from fractions import Fraction
 
 from rtamt.semantics.abstract_discrete_time_online_interpreter import AbstractDiscreteTimeOnlineInterpreter
 from rtamt.semantics.abstract_dense_time_online_interpreter import AbstractDenseTimeOnlineInterpreter
@@ -310,6 +311,9 @@ class AbstractOnlineSpecification(AbstractSpecification):
                 if isinstance(node, (Next, StrongNext)):
                     raise RTAMTException('Next operator not implemented in STL dense-time monitor.')
                 nodes.extend(node.children)
+        if isinstance(self.online_interpreter, DiscreteTimeInterpreter):
+            # one sampling period in the default unit: what a 'next' delays by and what bounds must be multiples of
+            self.pastifier.sample = Fraction(self.online_interpreter.get_sampling_period()) / self.ast.U[self.ast.unit]
         self.ast = self.pastifier.pastify(self.ast)
 
     # forwarding to interpreter
